@@ -370,6 +370,14 @@ async def _drive(rig: al.Rig, front: str, vdelay: int, history, soft: list):
             kw = dict(can_be_prefix=SPECS[arg][1], lifetime=LIFETIME, nonce=0x01020300 + len(ints))
             if front == 'v2':
                 coro = rig.app.express(name, validator, **kw)
+            elif len(ints) % 2 == 1:
+                # every other Interest of the legacy front-end is expressed with a parameter OBJECT that the caller goes on
+                # using for something else right away: what was sent is what counts, not what the object says later
+                ip = enc.InterestParam(can_be_prefix=kw['can_be_prefix'], lifetime=kw['lifetime'], nonce=kw['nonce'])
+                coro = rig.app.express_interest(name, validator=validator, interest_param=ip)
+                ip.can_be_prefix = not ip.can_be_prefix
+                ip.lifetime = 1
+                ip.must_be_fresh = True
             else:
                 coro = rig.app.express_interest(name, validator=validator, **kw)
             new = [e for e in rig.pit_entries() if id(e) not in before]
